@@ -20,6 +20,7 @@ mod cmd_batched;
 mod cmd_valeval;
 mod cmd_schema_syn;
 mod cmd_ext;
+mod cmd_level;
 
 /// Command families.  To add one: create src/cmd_xxx.rs with
 /// `pub fn dispatch(cmd: &str, v: &J) -> Option<Result<J, String>>`, add `mod cmd_xxx;` above
@@ -39,6 +40,7 @@ const FAMILIES: &[fn(&str, &J) -> Option<Result<J, String>>] = &[
     cmd_valeval::dispatch,
     cmd_schema_syn::dispatch,
     cmd_ext::dispatch,
+    cmd_level::dispatch,
 ];
 
 fn dispatch(cmd: &str, v: &J) -> Result<J, String> {
